@@ -2,6 +2,7 @@ package props
 
 import (
 	"fmt"
+	"os"
 	"regexp"
 	"strings"
 	"testing"
@@ -24,6 +25,8 @@ type CFile struct {
 	Path    string  `json:"path"`
 	Lines   []CLine `json:"lines"`
 	FinalNL bool    `json:"final_nl"`
+	// CRLF: the file has Windows line endings; they are text the command has no business changing
+	CRLF bool `json:"crlf,omitempty"`
 }
 
 type CInv struct {
@@ -33,6 +36,8 @@ type CInv struct {
 
 type C14Case struct {
 	DotRoot bool     `json:"dot_root,omitempty"` // the CRS root directory itself is named .crs
+	// ViaLink: the -d argument is a symbolic link to the CRS root ("link"), also spelled with a trailing slash ("link/")
+	ViaLink string `json:"via_link,omitempty"`
 	Files   []CFile  `json:"files"`
 	Seq     []CInv   `json:"seq"`
 	Lab     []string `json:"labels,omitempty"`
@@ -95,6 +100,9 @@ func (f CFile) content(v, y string) string {
 			sb.WriteString("\n")
 		}
 	}
+	if f.CRLF {
+		return strings.ReplaceAll(sb.String(), "\n", "\r\n")
+	}
 	return sb.String()
 }
 
@@ -139,8 +147,12 @@ func genC14(t *rapid.T) C14Case {
 	paths := []string{"rules/REQUEST-901-INITIALIZATION.conf", ".devcontainer/modsecurity/extra.conf", "crs-setup.conf.example", "plugins/empty-config.conf", "rules/restricted-files.data.example", "rules/REQUEST-932-APPLICATION-ATTACK-RCE.conf"}
 	n := rapid.IntRange(1, 5).Draw(t, "nfiles")
 	c.DotRoot = rapid.IntRange(0, 5).Draw(t, "dotroot") == 0
+	c.ViaLink = rapid.SampledFrom([]string{"", "", "", "", "", "link", "link/"}).Draw(t, "vialink")
 	for i := 0; i < n; i++ {
 		c.Files = append(c.Files, genCFile(t, paths[i], strings.Contains(paths[i], "setup") || i == 0))
+		if rapid.IntRange(0, 7).Draw(t, "crlf") == 0 {
+			c.Files[i].CRLF, c.Files[i].FinalNL = true, true
+		}
 	}
 	k := rapid.IntRange(1, 3).Draw(t, "nseq")
 	spell := map[string]bool{}
@@ -166,8 +178,14 @@ func genC14(t *rapid.T) C14Case {
 	for s := range spell {
 		lab["spelling:"+s] = true
 	}
+	if c.ViaLink != "" {
+		lab["root-reached-through-a-symbolic-link"] = true
+	}
 	markers := 0
 	for _, f := range c.Files {
+		if f.CRLF {
+			lab["crlf-file"] = true
+		}
 		if len(f.Lines) > 200 {
 			lab["file-above-8KiB"] = true
 		}
@@ -200,10 +218,19 @@ func checkC14(c C14Case) Outcome {
 		if err := tree.Write(root); err != nil {
 			panic(err)
 		}
+		if c.ViaLink != "" {
+			if err := os.Symlink(root, sb.Path("link")); err != nil {
+				panic(err)
+			}
+		}
 		return sb, root
 	}
 	run := func(sb *cli.Sandbox, root string, inv CInv) cli.Result {
-		return cli.Run(cli.Opt{Dir: sb.Root, Timeout: 30 * time.Second}, "-d", root, "chore", "update-copyright", "-v", inv.Version, "-y", inv.Year)
+		darg := root
+		if c.ViaLink != "" {
+			darg = sb.Path(c.ViaLink)
+		}
+		return cli.Run(cli.Opt{Dir: sb.Root, Timeout: 30 * time.Second}, "-d", darg, "chore", "update-copyright", "-v", inv.Version, "-y", inv.Year)
 	}
 	last := c.Seq[len(c.Seq)-1]
 	out.Detail["sequence"] = c.Seq
